@@ -194,11 +194,15 @@ func firstLines(s string, n int) string {
 	return strings.Join(lines, "\n")
 }
 
+// noRetry: obligations recorded as known findings (expected not to be proved): no second pass for them.
+var noRetry = map[string]bool{}
+
+type job struct {
+	q *Q
+	o *Oblig
+}
+
 func solveAll(results []*FnResult, timeoutS, workers int) {
-	type job struct {
-		q *Q
-		o *Oblig
-	}
 	jobs := make(chan job)
 	var wg sync.WaitGroup
 	for i := 0; i < workers; i++ {
@@ -217,6 +221,43 @@ func solveAll(results []*FnResult, timeoutS, workers int) {
 	}
 	close(jobs)
 	wg.Wait()
+	// second pass: anything not proved is retried with little parallelism and a longer time limit, so that
+	// machine load during the first pass cannot turn a provable obligation into an alarm
+	var again []job
+	for _, r := range results {
+		for _, o := range r.Q.obligs {
+			if o.Status != "proved" && o.Expect != "sat" && !noRetry[o.Name] {
+				again = append(again, job{r.Q, o})
+			}
+		}
+	}
+	if len(again) == 0 || len(again) > 40 {
+		return
+	}
+	sem := make(chan struct{}, 4)
+	var wg2 sync.WaitGroup
+	for _, j := range again {
+		wg2.Add(1)
+		sem <- struct{}{}
+		go func(j job) {
+			defer wg2.Done()
+			defer func() { <-sem }()
+			prev := *j.o
+			j.o.Status, j.o.Solver, j.o.Model = "", "", ""
+			solveOblig(j.q, j.o, timeoutS*3)
+			if j.o.Status != "proved" {
+				// keep the more informative of the two outcomes
+				if prev.Status == "failed" && j.o.Status != "failed" {
+					secs := j.o.Secs
+					*j.o = prev
+					j.o.Secs += secs
+				}
+			} else {
+				j.o.Solver += " (second pass)"
+			}
+		}(j)
+	}
+	wg2.Wait()
 }
 
 // stripQuantified removes every top-level command that contains a quantifier (weakening the hypotheses),
